@@ -218,6 +218,10 @@ def family_cases(fam, ty, tier, seed):
         for k in straddle(1.0, ty) + straddle(2.0, ty) + [kmin, 0.5, 3.0, 5.0, 30.0, 1e3, kmax]:
             if k >= kmin:
                 add([k], ('law', 'c03', 'switch'))
+        # three points per decade where the law approaches its normal limit (a shortcut 't is normal by now' is wrong
+        # by ~1/nu; where the monitor can still resolve that, it must be looked at)
+        for k in [10.0, 20.0, 50.0, 101.0, 128.0, 200.0, 500.0]:
+            add([k], ('law', 'c03', 'special'))
         for _ in range(R // 2):
             add([rnd.loguniform(kmin, kmax)])
     elif fam == 'fisher_f':
